@@ -197,3 +197,94 @@ def check_not_reachable(ctx: Context, rep, rule: str, entries: list[str],
                if hit else f"{len(seen)} functions reachable, none {what}",
                message=f"{fn.qualname} must not reach a function that {what}",
                path=" -> ".join(hit) if hit else "")
+
+
+# ---------------------------------------------------------------------------
+def check_fresh_pass(ctx: Context, rep, rule: str) -> None:
+    """tf.data calls the generator argument of from_generator once per pass
+    (per epoch under .repeat()): it must build a new iterator every time."""
+    rep.rule(
+        rule,
+        "every tf.data.Dataset.from_generator in the iteration module gets a "
+        "lambda / local function whose body *calls* an iteration interface "
+        "(a generator function of the package): each pass over the tf "
+        "dataset starts a fresh, complete pass - never a captured generator "
+        "object or a shared iterator instance")
+    n = 0
+    for fn in ctx.repo.module(C.ITER_MOD).functions.values():
+        if isinstance(fn.node, ast.Lambda):
+            continue
+        for c in fn.calls():
+            if not (isinstance(c.func, ast.Attribute) and
+                    c.func.attr == "from_generator"):
+                continue
+            n += 1
+            g = ctx.arg(c, 0, "generator")
+            ok = False
+            why = "not a lambda / local function"
+            body = None
+            if isinstance(g, ast.Lambda) and not (
+                    g.args.args or g.args.kwonlyargs or g.args.vararg):
+                body = g.body
+            elif isinstance(g, ast.Name):
+                local = fn.module.functions.get(
+                    f"{fn.qualname}.<locals>.{g.id}")
+                if local is not None:
+                    rets = [x for x in local.body_nodes()
+                            if isinstance(x, ast.Return)]
+                    if len(rets) == 1 and len(local.node.body) <= 2:
+                        body = rets[0].value
+                    elif local.is_generator():
+                        ok, why = True, "local generator function"
+            if body is not None:
+                why = "the body is not a call of a generator function of " \
+                    "the package"
+                if isinstance(body, ast.Call):
+                    tg = [t for t in ctx.internal_targets(fn, body)]
+                    ok = bool(tg) and all(t.is_generator() for t in tg)
+            rep.ob(rule, ok, loc=fn.loc(c), where=fn.qualname,
+                   construct=short(g, 80) if g is not None else "<none>",
+                   message="the generator argument re-creates the iterator on "
+                   "every call" + ("" if ok else f" ({why})"))
+    rep.floor(rule, n, 1, "from_generator sites")
+
+
+# ---------------------------------------------------------------------------
+def check_label_copy(ctx: Context, rep, rule: str) -> None:
+    """The label stored on the open shard is compared with the caller's next
+    label to decide about a rollover: the stored copy must compare equal to
+    the value it was copied from (copy.deepcopy does; a JSON round trip turns
+    tuples into lists and non-str keys into str, so an unchanged label looks
+    changed and every example opens a new shard)."""
+    from sa import norm
+    rep.rule(
+        rule,
+        "the custom metadata attached to the open shard is the caller's "
+        "value itself or copy.deepcopy of it - an equality-preserving copy - "
+        "because the rollover test compares it with the next call's value")
+    we = ctx.fn("sedpack.io.dataset_filler:_DatasetFillerContext.write_example")
+    attach = [n for n in we.body_nodes()
+              if isinstance(n, (ast.Assign, ast.AnnAssign)) and any(
+                  isinstance(t, ast.Attribute) and t.attr == "custom_metadata"
+                  for t in (n.targets if isinstance(n, ast.Assign)
+                            else [n.target]))]
+    if not attach:
+        raise AnalysisError(f"{rule}: the label is never attached")
+    for a in attach:
+        v = norm.expand(we, a.value)
+        inner = v
+        ok = False
+        if isinstance(v, ast.Call) and ctx.is_call(we, a.value if isinstance(
+                a.value, ast.Call) else v, "copy.deepcopy") and len(v.args) == 1:
+            inner = v.args[0]
+            ok = True
+        elif isinstance(v, ast.Call) and (dotted(v.func) or "").endswith(
+                "deepcopy") and len(v.args) == 1:
+            inner = v.args[0]
+            ok = True
+        elif isinstance(v, ast.Name):
+            ok = True
+        ok = ok and dotted(inner) == "custom_metadata"
+        rep.ob(rule, ok, loc=we.loc(a), where=we.qualname, construct=short(a, 90),
+               message="stored label == caller's label (deepcopy), so equal "
+               "labels compare equal at the next write")
